@@ -206,6 +206,8 @@ class Unit:
 
     def _targ(self, c):
         if 'value' in c:
+            if str(c['value']) in ('true', 'false'):
+                return Ty('true' if str(c['value']) == 'true' else 'false')
             return int(c['value'])
         if 'type' in c:
             return self.canon(parse_type(qt(c)))
@@ -401,7 +403,9 @@ class Unit:
             args = args[1:]
         out = short
         for a in args:
-            out += '_' + self.mangle(a)
+            m = self.mangle(a)
+            if m not in ('true', 'false', '-1'):      # enable_if guards (bool true is printed as the 1-bit value -1)
+                out += '_' + m
         return out
 
     def cty(self, t):
@@ -520,7 +524,7 @@ class Unit:
         else:
             for a in targs:
                 m = self.mangle(a)
-                if m != 'T':
+                if m not in ('T', 'true', 'false', '-1'):
                     nm += '_' + m
         return nm
 
@@ -687,8 +691,14 @@ class FnTr:
                 fi.ret = None
                 fi.ret_auto = True
             else:
-                rt = u.canon(parse_type(rsr), self.cls)
-                fi.ret = None if rt.name == 'void' else rt
+                try:
+                    rt = u.canon(parse_type(rsr), self.cls)
+                    fi.ret = None if rt.name == 'void' else rt
+                except ExtractionError:
+                    # a return type spelled with an unevaluated constant expression (outputOrder(size - 1) + 1):
+                    # taken from the first return statement instead, like a deduced return type
+                    fi.ret = None
+                    fi.ret_auto = True
 
     def decide_rkind(self):
         fi = self.fi
